@@ -72,8 +72,6 @@ class Run:
         timeout = spec.get("timeout", {"quick": 10, "thorough": 60})[self.tier]
         cmd = [govc, "-dir", self.subst(spec["dir"]), "-pkgs", ",".join(spec["pkgs"]),
                "-contracts", ",".join(self.subst(c) for c in spec["contracts"]), "-out", out, "-timeout", str(timeout)]
-        if spec.get("prop"):
-            cmd += ["-prop", spec["prop"]]
         if spec.get("funcs"):
             cmd += ["-funcs", spec["funcs"]]
         if spec.get("tags"):
@@ -85,7 +83,7 @@ class Run:
         if os.path.exists(cpath) and not os.environ.get("VERIF_NO_CACHE"):
             rep = json.load(open(cpath))
             rep["cached"] = True
-            return rep
+            return self.filter_prop(rep, spec.get("prop"))
         rc, o = sh(cmd, cwd=self.subst(spec["dir"]), timeout=3600)
         if rc == 2 or not os.path.exists(out):
             raise EngineError("govc failed:\n" + o[-4000:])
@@ -94,8 +92,23 @@ class Run:
         rep["console"] = o
         os.makedirs(os.path.dirname(cpath), exist_ok=True)
         json.dump(rep, open(cpath, "w"))
-        rep["cmd"] = " ".join(cmd)
-        rep["console"] = o
+        return self.filter_prop(rep, spec.get("prop"))
+
+    def filter_prop(self, rep, prop):
+        """All functions under contract in the loaded packages are verified in one govc run (shared between the
+        properties that cite them); a check keeps the functions whose contract lists its property."""
+        if not prop:
+            return rep
+        keep = set(f["func"] for f in rep.get("functions") or [] if prop in (f.get("props") or []))
+        rep = dict(rep)
+        rep["functions"] = [f for f in rep.get("functions") or [] if f["func"] in keep]
+        rep["obligations"] = [o for o in rep.get("obligations") or [] if o["func"] in keep]
+        rep["solver_s"] = sum(o.get("secs", 0) for o in rep["obligations"])
+        by = {}
+        for o in rep["obligations"]:
+            if o["status"] == "discharged":
+                by[o.get("solver")] = by.get(o.get("solver"), 0) + 1
+        rep["discharged_by_solver"] = by
         return rep
 
     def govc_cache_key(self, govc, spec, cmd):
@@ -287,7 +300,7 @@ class Run:
             vio_lines.append("VIOLATION property=%s replay=%s" % (self.prop, path))
         for e in extra:
             for v in e.get("violations", []):
-                kf = self.match_known(case=v.get("id", ""), obligation=v.get("id", ""))
+                kf = self.match_known(case=v.get("id", ""), obligation=v.get("id", ""), case_id=v.get("case_id"))
                 if kf:
                     known_hit.append(kf)
                     continue
@@ -328,12 +341,22 @@ class Run:
                 raise EngineError("%s generated zero obligations (vacuous check)" % e.get("name"))
         return 1 if vio_lines else 0
 
-    def match_known(self, obligation=None, case=None):
+    def match_known(self, obligation=None, case=None, case_id=None):
         for kf in self.known:
             if obligation is not None and kf.get("key") == obligation:
                 return kf
             if case is not None and kf.get("case") and kf["case"] in str(case):
                 return kf
+            if case_id is not None and kf.get("case_files"):
+                if "_ids" not in kf:
+                    ids = set()
+                    for cf in kf["case_files"]:
+                        pth = os.path.join(VERIF, cf)
+                        if os.path.exists(pth):
+                            ids |= set(open(pth).read().split())
+                    kf["_ids"] = ids
+                if case_id in kf["_ids"]:
+                    return kf
         return None
 
     def write_replay(self, rp):
